@@ -29,7 +29,9 @@ Proof.
   assert (P4 : passes true rd_ignored_in [] = true) by (vm_compute; reflexivity).
   assert (C1 : cov true rd_gen_names FBound [FDeleted] = true) by (vm_compute; reflexivity).
   assert (C2 : cov true rd_gen_names FParams [] = true) by (vm_compute; reflexivity).
-  repeat split.
+  assert (L : rd_edge_sensitive = true -> rd_changed_compares_in = true)
+    by (vm_compute; intros H; first [discriminate H | reflexivity]).
+  repeat split; try exact L.
   - intros M. apply (covg_sound ditem fst _ _ _ _ G Ea M).
   - intros S M D. apply (passes_sound ditem fst _ _ _ _ _ P Ea S). intros g [<-|[<-|[]]]; assumption.
   - apply (passes_sound ditem fst _ _ _ _ _ P2 Ea H). apply off_nil.
